@@ -405,6 +405,92 @@ class C16(F.Spec):
                             fs.append(F.Finding("publish-outside-data", "unpacked PUBLISH extends outside the %d received bytes: %s" % (len(b), x)))
         return fs
 
+    @staticmethod
+    def sent_packets(lines):
+        """(type, flags, packet id or None) of the MQTT packets the client handed to TCP"""
+        out = []
+        for x in lines:
+            if not x.startswith("SENT 0 "):
+                continue
+            b = bytes.fromhex(x.split()[2])
+            j = 0
+            while j + 1 < len(b):
+                ln, k, mul = 0, j + 1, 1
+                while k < len(b):
+                    ln += (b[k] & 127) * mul
+                    mul *= 128
+                    k += 1
+                    if not b[k - 1] & 128:
+                        break
+                ty, fl = b[j] >> 4, b[j] & 15
+                pid = None
+                if ty in (8, 10) and ln >= 2:
+                    pid = struct.unpack(">H", b[k:k + 2])[0]
+                elif ty == 3 and (fl >> 1) & 3 and ln >= 4:
+                    tl = struct.unpack(">H", b[k:k + 2])[0]
+                    if k + 2 + tl + 2 <= len(b):
+                        pid = struct.unpack(">H", b[k + 2 + tl:k + 4 + tl])[0]
+                out.append((ty, fl, pid))
+                j = k + ln
+        return out
+
+    def extra_findings(self, tier, rng):
+        """acknowledgements of requests the client really has outstanding (its SUBSCRIBE, its QoS 1/2 state publishes), once well
+        formed (no error) and once with a reserved flag bit set: wrong flags are a protocol error whatever the packet answers"""
+        exe = self.driver_build()
+        out, ev, nt = [], 0, set()
+        for i in range(6 if tier == "quick" else 40):
+            qos = rng.choice([1, 1, 2, 0])
+            base = ["cfg qos %d" % qos, "start", "connected", "seg " + CONNACK.hex(), "adv 300"]
+            rc, lines, err = C.run_lines([exe], "\n".join(base) + "\n")
+            ev += 1
+            if rc != 0:
+                out.append((F.Finding("crash", "rc=%s %s" % (rc, err[-600:])), base))
+                break
+            pk = [p for p in self.sent_packets(lines) if p[2] is not None]
+            cands = []
+            for ty, fl, pid in pk:
+                if ty == 8:
+                    cands.append((0x90, bytes([3]) + struct.pack(">H", pid) + b"\0", "SUBACK"))
+                elif ty == 3 and (fl >> 1) & 3 == 1:
+                    cands.append((0x40, bytes([2]) + struct.pack(">H", pid), "PUBACK"))
+                elif ty == 3 and (fl >> 1) & 3 == 2:
+                    cands.append((0x50, bytes([2]) + struct.pack(">H", pid), "PUBREC"))
+            if not cands:
+                continue
+            first, body, name = rng.choice(cands)
+            for bad in (0, rng.choice([1, 2, 4, 8])):
+                ops = base + ["seg " + (bytes([first | bad]) + body).hex()]
+                rc, lines, err = C.run_lines([exe], "\n".join(ops) + "\n")
+                ev += 1
+                if rc != 0:
+                    out.append((F.Finding("crash", "rc=%s %s" % (rc, err[-600:])), ops))
+                    break
+                ce = [x for x in lines if x.startswith("CLIENTERR ")]
+                ok = bool(ce) and ce[-1] == "CLIENTERR 1"
+                nt.add((name, bad != 0, ok))
+                if bad and ok:
+                    out.append((F.Finding("wrong-flags-accepted", "a %s for an outstanding request with reserved flag bits %d set is "
+                                          "accepted without a protocol error" % (name, bad)), ops))
+                if not bad and not ok:
+                    out.append((F.Finding("valid-ack-rejected", "a well-formed %s for an outstanding request ends in %s" % (name, ce[-1:])), ops))
+            if out:
+                break
+        return ev, len(nt), out
+
+    def extra_replay(self, ops):
+        if not any(o.startswith("cfg qos") for o in ops):
+            return []
+        rc, lines, err = C.run_lines([self.driver_build()], "\n".join(ops) + "\n")
+        if rc != 0:
+            return [F.Finding("crash", "rc=%s %s" % (rc, err[-600:]))]
+        ce = [x for x in lines if x.startswith("CLIENTERR ")]
+        last = bytes.fromhex(ops[-1].split()[1])
+        bad = last[0] & 15 and (last[0] >> 4) in (4, 5, 9)
+        if bad and ce and ce[-1] == "CLIENTERR 1":
+            return [F.Finding("wrong-flags-accepted", "an acknowledgement with reserved flag bits set is accepted without a protocol error")]
+        return []
+
     def nontrivial_key(self, case, groups):
         raw = case.meta.get("raw_impl") or []
         k = tuple(sorted(set(x.split()[0] + (":" + x.split()[1] if x.startswith("UNPACK") and not x.split()[1].lstrip("-").isdigit() else "")
